@@ -99,6 +99,7 @@ func NewRouter(s *specification.Spec, ps []*PathItem, os []*Operation, opt Gener
 				if s.Scheme.Type == specification.SecuritySchemeTypeHTTP && s.Scheme.Scheme == "bearer" {
 					r.JWT = true
 					p.JWT = true
+					op.JWT = true
 				}
 				if s.Scheme.Type == specification.SecuritySchemeTypeApiKey && s.Scheme.In == "header" {
 					op.APIKeys = append(op.APIKeys, s.Scheme.Name)
@@ -161,6 +162,7 @@ type RouterPathItemOperation struct {
 	CORSMethods []string
 	CORSHeaders []string
 
+	JWT          bool
 	APIKeys      []string
 	APIKeysQuery []string
 }
